@@ -13,7 +13,9 @@ META = {
     "get_template/select_template/get_or_select_template record every (requesting template, requested name).  For every "
     "template T of the item: the names T looked up at runtime must be a subset of find_undeclared_variables(parse(T)) "
     "plus the environment globals, and the templates T loaded must be a subset of find_referenced_templates(parse(T)) "
-    "unless that yields None (unknown).",
+    "unless that yields None (unknown).  A second family places every kind of template reference (include, include list, "
+    "ignore missing, import, from-import, dynamic names, extends) and variable use at every statement position (if / elif / "
+    "else / for / for-else / filtered for / block / macro / call / filter / with / set block / autoescape), nested two deep.",
     "note": "Corpus bounds of vf/corpus.py.  Lookups are attributed to the template whose compiled code performs them (frame "
     "globals), from_string templates are not attributed; names injected by the runtime itself are not lookups of the template.",
     "design_ref": "DESIGN.md §4 C32",
@@ -41,7 +43,11 @@ def make_classes():
         loads = None
 
         def get_template(self, name, parent=None, globals=None):
-            RecEnv.loads.append((parent, (name,) if isinstance(name, str) else ("<object>",)))
+            if isinstance(name, (list, tuple)):
+                names = tuple(n if isinstance(n, str) else "<object>" for n in name)
+            else:
+                names = (name,) if isinstance(name, str) else ("<object>",)
+            RecEnv.loads.append((parent, names))
             return super().get_template(name, parent, globals)
 
         def select_template(self, names, parent=None, globals=None):
@@ -50,6 +56,45 @@ def make_classes():
             return super().select_template(names, parent, globals)
 
     return RecContext, RecEnv
+
+
+def judge(p, env, sources, log, loads, ident, kind):
+    from jinja2 import meta
+
+    static_vars, static_refs = {}, {}
+    for name, src in sources.items():
+        try:
+            ast = env.parse(src)
+        except Exception:  # noqa: BLE001
+            continue
+        static_vars[name] = meta.find_undeclared_variables(ast)
+        static_refs[name] = list(meta.find_referenced_templates(ast))
+    glob = set(env.globals)
+    looked = {}
+    for name, key in log:
+        looked.setdefault(name, set()).add(key)
+    for name, keys in looked.items():
+        if name not in static_vars:
+            continue  # from_string templates carry no name
+        extra = keys - static_vars[name] - glob
+        if extra:
+            p.violation(f"C32/unreported-variable/{kind}", {
+                "msg": f"{ident}: template {name!r} looked up {sorted(extra)} at runtime; find_undeclared_variables reports "
+                       f"{sorted(static_vars[name])}; source {sources[name]!r}",
+                "script": "import jinja2\nfrom jinja2 import meta\nsrc=%r\nprint(meta.find_undeclared_variables(jinja2.Environment(extensions=['jinja2.ext.loopcontrols']).parse(src)))\n" % sources[name]})
+    for parent, names in loads:
+        if parent is None or parent not in static_refs:
+            continue
+        refs = static_refs[parent]
+        if None in refs:
+            continue
+        missing = [x for x in names if x not in refs]
+        if missing:
+            p.violation(f"C32/unreported-template/{kind}", {
+                "msg": f"{ident}: template {parent!r} loaded {names} at runtime; find_referenced_templates reports {refs}; "
+                       f"source {sources[parent]!r}",
+                "script": "import jinja2\nfrom jinja2 import meta\nsrc=%r\nprint(list(meta.find_referenced_templates(jinja2.Environment().parse(src))))\n" % sources[parent]})
+    return looked
 
 
 def shard(arg):
@@ -75,43 +120,75 @@ def shard(arg):
         log, loads = RecContext.log, RecEnv.loads
         RecContext.log, RecEnv.loads = [], []
         p.evals += 1
-        sources = dict(it.sources)
-        static_vars, static_refs = {}, {}
-        for name, src in sources.items():
-            try:
-                ast = env.parse(src)
-            except Exception:  # noqa: BLE001
-                continue
-            static_vars[name] = meta.find_undeclared_variables(ast)
-            static_refs[name] = list(meta.find_referenced_templates(ast))
-        glob = set(env.globals)
-        looked = {}
-        for name, key in log:
-            looked.setdefault(name, set()).add(key)
-        for name, keys in looked.items():
-            if name not in static_vars:
-                continue  # from_string templates carry no name
-            extra = keys - static_vars[name] - glob
-            if extra:
-                p.violation(f"C32/unreported-variable/{it.kind}", {
-                    "msg": f"{it.ident}: template {name!r} looked up {sorted(extra)} at runtime; find_undeclared_variables reports "
-                           f"{sorted(static_vars[name])}; source {sources[name]!r}",
-                    "script": "import jinja2\nfrom jinja2 import meta\nsrc=%r\nprint(meta.find_undeclared_variables(jinja2.Environment(extensions=['jinja2.ext.loopcontrols']).parse(src)))\n" % sources[name]})
-        for parent, names in loads:
-            if parent is None or parent not in static_refs:
-                continue
-            refs = static_refs[parent]
-            if None in refs:
-                continue
-            missing = [x for x in names if x not in refs]
-            if missing:
-                p.violation(f"C32/unreported-template/{it.kind}", {
-                    "msg": f"{it.ident}: template {parent!r} loaded {names} at runtime; find_referenced_templates reports {refs}; "
-                           f"source {sources[parent]!r}",
-                    "script": "import jinja2\nfrom jinja2 import meta\nsrc=%r\nprint(list(meta.find_referenced_templates(jinja2.Environment().parse(src))))\n" % sources[parent]})
+        looked = judge(p, env, dict(it.sources), log, loads, it.ident, it.kind)
         p.sig((it.kind, tuple(sorted((str(k2), len(v)) for k2, v in looked.items()))[:3], len(loads), isinstance(out, tuple)))
         p.sample({"item": it.ident, "lookups": {str(a): sorted(b) for a, b in looked.items()}, "loads": [[str(a), list(b)] for a, b in loads][:4]}, cap=1)
     return p
+
+# ------------------------------------------------------------------ every statement position
+WRAPS = [
+    "{X}", "{% if c1 %}{X}{% endif %}", "{% if c0 %}a{% elif c1 %}{X}{% endif %}",
+    "{% if c0 %}a{% elif c0 %}b{% elif c1 %}{X}{% else %}e{% endif %}", "{% if c0 %}a{% else %}{X}{% endif %}",
+    "{% for i in one %}{X}{% endfor %}", "{% for i in none %}a{% else %}{X}{% endfor %}", "{% for i in one if c1 %}{X}{% endfor %}",
+    "{% block b{N} %}{X}{% endblock %}", "{% macro m{N}() %}{X}{% endmacro %}{{ m{N}() }}",
+    "{% macro w{N}() %}[{{ caller() }}]{% endmacro %}{% call w{N}() %}{X}{% endcall %}", "{% filter upper %}{X}{% endfilter %}",
+    "{% with q = 1 %}{X}{% endwith %}", "{% set s{N} %}{X}{% endset %}{{ s{N} }}", "{% autoescape true %}{X}{% endautoescape %}",
+]
+PAYLOADS = [
+    "{% include 'r1' %}", "{% include ['nx', 'r1'] %}", "{% include 'nx' ignore missing %}", "{% include ['nx', 'ny'] ignore missing %}",
+    "{% import 'r1' as m %}{{ m.f() }}", "{% from 'r1' import f %}{{ f() }}", "{% from 'r1' import f with context %}{{ f() }}",
+    "{% include rname %}", "{% include [rname, 'r2'] %}", "{% include 'r1' if c1 else 'r2' %}",
+    "{{ v1 }}", "{{ v1|default(v2) }}{{ v9 is defined }}", "{% set v1 = v2 %}{{ v1 }}", "{{ v1 if c1 else v2 }}{% for v2 in one %}{{ v2 }}{% endfor %}",
+]
+EXT_WRAPS = ["{X}", "{% if c1 %}{X}{% endif %}", "{% if c0 %}a{% elif c1 %}{X}{% endif %}", "{% if c0 %}a{% else %}{X}{% endif %}"]
+EXT_PAYLOADS = ["{% extends 'r2' %}", "{% extends rname %}", "{% extends ['nx', 'r2'] %}"]
+POS_DATA = {"c0": False, "c1": True, "one": [1], "none": [], "v1": "a", "v2": "b", "v3": "c", "rname": "r1"}
+POS_LIB = {"r1": "{% macro f() %}F{{ v3 }}{% endmacro %}R{{ v3 }}", "r2": "R2{% block bx %}{% endblock %}"}
+
+
+def position_templates(depth):
+    out = []
+    for w1 in WRAPS:
+        for w2 in (WRAPS if depth >= 2 else ["{X}"]):
+            for x in PAYLOADS:
+                out.append(w1.replace("{N}", "1").replace("{X}", w2.replace("{N}", "2").replace("{X}", x)))
+    for w in EXT_WRAPS:
+        for x in EXT_PAYLOADS:
+            out.append(w.replace("{X}", x) + "{% block bx %}{{ v1 }}{% endblock %}")
+    return list(dict.fromkeys(out))
+
+
+def position_shard(arg):
+    import jinja2
+
+    k, n, depth = arg
+    p = core.Part()
+    RecContext, RecEnv = make_classes()
+    for i, src in enumerate(position_templates(depth)):
+        if i % n != k:
+            continue
+        sources = dict(POS_LIB, main=src)
+        env = RecEnv(loader=jinja2.DictLoader(sources), extensions=["jinja2.ext.loopcontrols"])
+        RecContext.log, RecEnv.loads = [], []
+        try:
+            t = env.get_template("main")
+        except Exception:  # noqa: BLE001 - not a valid template (e.g. a block inside a macro call): nothing to observe
+            p.evals += 1
+            p.count("position_templates_not_compilable")
+            continue
+        RecContext.log, RecEnv.loads = [], []
+        out = corpus.outcome(lambda: t.render(**POS_DATA))
+        log, loads = RecContext.log, RecEnv.loads
+        RecContext.log, RecEnv.loads = [], []
+        p.evals += 1
+        looked = judge(p, env, sources, log, loads, "position:" + src, "position")
+        p.sig(("pos", src[:40], len(looked.get("main", ())), len(loads), isinstance(out, tuple)))
+        p.sample({"template": src, "lookups": sorted(looked.get("main", ())), "loads": [[str(a), list(b)] for a, b in loads][:4]}, cap=1)
+    return p
+
+
+def dispatch(arg):
+    return position_shard(arg[1]) if arg[0] == "p" else shard(arg[1])
 
 
 def run(ctx: core.Ctx):
@@ -121,5 +198,5 @@ def run(ctx: core.Ctx):
     ctx.assumptions += ["a lookup is a call of Context.resolve_or_missing; a load is a call of Environment.get_template / "
                         "select_template with a `parent` (the requesting template's name)"]
     n = 64
-    ctx.pmap(shard, [(ctx.tier, k, n) for k in range(n)])
+    ctx.pmap(dispatch, [("c", (ctx.tier, k, n)) for k in range(n)] + [("p", (k, 16, 2)) for k in range(16)])
     ctx.cov["bounds"] = {"corpus": str(corpus.BOUNDS[ctx.tier])}
